@@ -397,8 +397,8 @@ func checkC09(c *Ctx, r *Report) {
 						continue
 					}
 					n := callName(call.Common())
-					if writerCalls[n] || (call.Common().IsInvoke() && strings.HasPrefix(call.Common().Method.Name(), "Write")) {
-						bad = "output is written inside the loop at " + c.pos(in2.Pos())
+					if writerCalls[n] || (call.Common().IsInvoke() && strings.HasPrefix(call.Common().Method.Name(), "Write")) || j5MayOutput(call, 0, map[*ssa.Function]bool{}) {
+						bad = "output is written inside the loop at " + c.pos(in2.Pos()) // also by a helper called there (ip_j4.go)
 					}
 					if n == "builtin.append" {
 						if v := call.Value(); v != nil {
@@ -489,10 +489,12 @@ func checkC09(c *Ctx, r *Report) {
 		if hw == nil {
 			o.Bad("anchor fbb.Header.Write not found")
 		} else {
+			// the lines written by Header.Write or by the same-package code it hands its writer to, one
+			// per call site of a line helper, a constant key folded into the format (ip_j4.go)
 			all, n := true, 0
-			for _, ci := range callsTo(hw, false, "fmt.Fprintf") {
+			for _, l := range j5Lines(hw) {
 				n++
-				if s, ok := constString(ci.Common().Args[1]); !ok || !strings.HasSuffix(s, "\r\n") || !strings.Contains(s, ": ") {
+				if s := l.format; l.raw == "" || !strings.HasSuffix(s, "\r\n") || !strings.Contains(s, ": ") {
 					all = false
 				}
 			}
@@ -508,10 +510,12 @@ func checkC09(c *Ctx, r *Report) {
 			// the line written before every other one (dominance, not source order), and the keys of
 			// the other lines traced back to where they are collected - possibly in a helper (ip_g8.go)
 			s := ""
-			if first := g8FirstWrite(hw); first != nil {
-				s, _ = constString(first.Common().Args[1])
+			lines := j5Lines(hw)
+			first := j5First(lines)
+			if first != nil {
+				s = first.format
 			}
-			excl := g8MidExcluded(c, hw, pkg)
+			excl := g8MidExcluded(c, hw, pkg, lines, first)
 			if strings.HasPrefix(s, "Mid: ") && excl {
 				o.OK("the first line written is 'Mid: ...' and the key is skipped when collecting the others")
 			} else {
@@ -878,17 +882,16 @@ func c09Extra2(c *Ctx, r *Report, prefix string) {
 		r.Fail(rule, "anchor Header.Write not found")
 	} else {
 		n := 0
-		for _, ci := range callsTo(fn, false, "fmt.Fprintf") {
-			s, _ := constString(ci.Common().Args[1])
-			if s != "%s: %s\r\n" {
+		// the 'key: value' lines with a variable key, written by Header.Write or below it (a constant
+		// key bound at the call site - the Mid line - is folded into the format: ip_j4.go); the loop
+		// that matters is the innermost one around the write, in the helper or around the call
+		for _, l := range j5Lines(fn) {
+			if l.format != "%s: %s\r\n" {
 				continue
 			}
 			n++
-			ranged, _ := rangedSlice(ci.Block())
-			ok := false
-			if lk, isLk := ranged.(*ssa.Lookup); isLk && sameSlotValue(lk.X, fn.Params[0]) {
-				ok = true
-			}
+			ci := l.call
+			ok := j5ValuesRanged(fn, l)
 			r.Check(rule, fnName(fn), "values of one key", c.pos(ci.Pos()), ok,
 				"the loop ranges over h[key] itself", "the values of a header field are not written straight from h[key] (a sorted or otherwise reordered copy?): the File headers then no longer list the attachments in the order their data is written, so a receiver attaches contents to the wrong names or cannot parse the message")
 		}
